@@ -170,9 +170,43 @@ func coRun(dest, src, via string) (got string) {
 	case "float32":
 		sch, newDest, show = z.Float32(), func() any { return new(float32) }, func(p any) string { return strconv.FormatFloat(float64(*p.(*float32)), 'f', -1, 32) }
 	case "bool":
-		sch, newDest, show = z.Bool(), func() any { return new(bool) }, func(p any) string { return fmt.Sprint(*p.(*bool)) }
+		sch = z.Bool()
+		if opt == "coercer:negate" {
+			sch = z.Bool(z.WithCoercer(func(d any) (any, error) {
+				v, err := conf.DefaultCoercers.Bool(d)
+				if err != nil {
+					return nil, err
+				}
+				return !v.(bool), nil
+			}))
+		}
+		newDest, show = func() any { return new(bool) }, func(p any) string { return fmt.Sprint(*p.(*bool)) }
 	case "string":
-		sch, newDest, show = z.String(), func() any { return new(string) }, func(p any) string { return *p.(*string) }
+		sch = z.String()
+		if opt == "coercer:upper" {
+			sch = z.String(z.WithCoercer(func(d any) (any, error) {
+				v, err := conf.DefaultCoercers.String(d)
+				if err != nil {
+					return nil, err
+				}
+				return strings.ToUpper(v.(string)), nil
+			}))
+		}
+		newDest, show = func() any { return new(string) }, func(p any) string { return *p.(*string) }
+	case "ptr-int", "ptr-int-beside-coercer":
+		if opt == "coercer:plus100" {
+			sch = z.Ptr(z.Int(z.WithCoercer(plus100)))
+		} else {
+			_ = z.Ptr(z.Int(z.WithCoercer(plus100)))
+			sch = z.Ptr(z.Int())
+		}
+		newDest, show = func() any { return new(*int) }, func(p any) string {
+			pp := *p.(**int)
+			if pp == nil {
+				return "nil"
+			}
+			return fmt.Sprint(*pp)
+		}
 	case "int", "int-beside-coercer", "int-after-global-restored":
 		if opt == "coercer:plus100" {
 			sch = z.Int(z.WithCoercer(plus100))
@@ -184,9 +218,27 @@ func coRun(dest, src, via string) (got string) {
 		}
 		newDest, show = func() any { return new(int) }, func(p any) string { return fmt.Sprint(*p.(*int)) }
 	case "float":
-		sch, newDest, show = z.Float64(), func() any { return new(float64) }, func(p any) string { return strconv.FormatFloat(*p.(*float64), 'f', -1, 64) }
+		sch = z.Float64()
+		if opt == "coercer:plus100" {
+			sch = z.Float64(z.WithCoercer(func(d any) (any, error) {
+				v, err := conf.DefaultCoercers.Float64(d)
+				if err != nil {
+					return nil, err
+				}
+				return v.(float64) + 100, nil
+			}))
+		}
+		newDest, show = func() any { return new(float64) }, func(p any) string { return strconv.FormatFloat(*p.(*float64), 'f', -1, 64) }
 	case "time":
 		switch opt {
+		case "coercer:plus1h":
+			sch = z.Time(z.WithCoercer(func(d any) (any, error) {
+				v, err := conf.DefaultCoercers.Time(d)
+				if err != nil {
+					return nil, err
+				}
+				return v.(time.Time).Add(time.Hour), nil
+			}))
 		case "format:2006-01-02":
 			sch = z.Time(z.Time.Format("2006-01-02"))
 		case "formatfunc:unixstr":
@@ -257,6 +309,8 @@ func coRun(dest, src, via string) (got string) {
 			n, co = count(nil, s.Parse(data, d.(*time.Time)))
 		case *z.SliceSchema:
 			n, co = count(s.Parse(data, d), nil)
+		case *z.PointerSchema:
+			n, co = count(s.Parse(data, d), nil)
 		}
 		return finish(n, co, show(d))
 	case "field":
@@ -300,6 +354,10 @@ func coField(sch z.ZogSchema, base string, data any, finish func(int, bool, stri
 		return finish(n, co, show(&d.V))
 	case base == "time":
 		var d struct{ V time.Time }
+		n, co := count(s.Parse(in, &d), nil)
+		return finish(n, co, show(&d.V))
+	case strings.HasPrefix(base, "ptr-int"):
+		var d struct{ V *int }
 		n, co := count(s.Parse(in, &d), nil)
 		return finish(n, co, show(&d.V))
 	case base == "slice-int":
